@@ -177,6 +177,12 @@ class FromDAOState:
     Dictionary that marks objects as currently being processed by the `from_dao` method.
     """
 
+    keep_alive: InstanceDict = field(default_factory=dict)
+    """
+    Dictionary that prevents memoized DAOs from being garbage collected, so that their ids cannot be reused while
+    the memo refers to them.
+    """
+
     def has(self, dao_obj: Any) -> bool:
         return id(dao_obj) in self.memo
 
@@ -195,6 +201,7 @@ class FromDAOState:
         """
         result = original_cls.__new__(original_cls)
         self.memo[id(dao_obj)] = result
+        self.keep_alive[id(dao_obj)] = dao_obj
         self.in_progress[id(dao_obj)] = True
         return result
 
